@@ -759,17 +759,10 @@ func (res *Response) waitTrigger(ctx context.Context, peer *Peer) {
 		return
 	}
 
+	// the peer might have gone down meanwhile: NewResponse fetches its data store (again) right after this
+	// and lists it as failed then; marking it here as well would list a peer as failed that is back when its
+	// rows are gathered
 	peer.WaitCondition(ctx, res.request)
-
-	// peer might have gone down meanwhile, ex. after waiting for a waittrigger, so check again
-	_, err := peer.GetDataStore(res.request.Table)
-	if err != nil {
-		res.lock.Lock()
-		res.failed[peer.ID] = err.Error()
-		res.lock.Unlock()
-
-		return
-	}
 }
 
 // MergeStats merges stats result into final result set.
